@@ -10,7 +10,7 @@ from . import tlc
 from .framework import Machinery
 
 
-def run_jobs(jobs, module='FnTables', par=16, timeout=3600):
+def run_jobs(jobs, module='FnTables', par=16, timeout=3600, extra_env=None):
     """ jobs: list of dicts (must contain 'kind', 'lo', 'hi'); returns list of {clause: [failing keys]} """
     tmp = tempfile.mkdtemp(prefix='verif_fn_')
     try:
@@ -18,7 +18,7 @@ def run_jobs(jobs, module='FnTables', par=16, timeout=3600):
             path = os.path.join(tmp, f'job_{i}.json')
             with open(path, 'w') as f:
                 json.dump(jobs[i], f)
-            r = tlc.run_tlc(module, 'SPECIFICATION Spec\nCHECK_DEADLOCK FALSE\n', env={'JOB_FILE': path}, workers=1, timeout=timeout, xmx='3g')
+            r = tlc.run_tlc(module, 'SPECIFICATION Spec\nCHECK_DEADLOCK FALSE\n', env=dict({'JOB_FILE': path}, **(extra_env or {})), workers=1, timeout=timeout, xmx='3g')
             if r['error'] or r['violated']:
                 raise Machinery(f'function-table job {i} ({jobs[i].get("kind")}) failed:\n{r["error"] or r["out"][-2000:]}')
             res = {}
